@@ -542,7 +542,7 @@ def flagsOf (mode : String) (tips : Bool) : Option Flags :=
     is tied to the model of the command — the interpreter `cliOutput` run on the table regenerated
     from the working tree (`Gen.C08Glue.glue`), so that a change of the glue that the table
     follows is judged by the oracle alone, and one it does not follow breaks the tie. -/
-def handleCli (mode tipsS dR dCs outcome rowsS stdoutE : String) : Verdict :=
+def handleCli (mode tipsS dR dCs outcome rowsS stdoutE threads : String) : Verdict :=
   match parseBool tipsS with
   | none => bad "C08.cli tips"
   | some tips =>
@@ -556,18 +556,34 @@ def handleCli (mode tipsS dR dCs outcome rowsS stdoutE : String) : Verdict :=
     | some r, some cs, some text =>
       if !(r.uniqueTips && cs.all (·.uniqueTips)) then v else
       -- table and model agree on what is called and printed?  (fidelity of the table: reported as a tag)
-      let v := { v with tags := v.tags ++ tagIf (Gotree.Gen.C08Glue.glue == expectedGlue) "table-as-expected" }
-      match cliOutput Gotree.Gen.C08Glue.glue fl r cs, cliOutput expectedGlue fl r cs with
+      let v := { v with tags := v.tags ++ tagIf (glueOK Gotree.Gen.C08Glue.glue expectedGlue) "table-as-expected" }
+      -- the text modes through `cliOutput`, the `%E` rows of `--weighted` through `cliOutputW`
+      let run (g : Glue) : Option (String × Bool) :=
+        match cliOutput g fl r cs with
+        | some x => some x
+        | none => cliOutputW g fl r cs
+      let multi := threads != "1"
+      let v := { v with tags := v.tags ++ tagIf multi "cli-threads" }
+      -- with several worker goroutines the rows come in any order (except `--rf`, printed by id):
+      -- the header first, then the same lines
+      let sameText (a b : String) : Bool :=
+        if !multi || fl.rf && !fl.binary && !fl.weighted then a == b
+        else
+          let hl := (headerOf expectedGlue fl).length
+          let la := a.splitOn "\n"
+          let lb := b.splitOn "\n"
+          la.take hl == lb.take hl && sortStrings (la.drop hl) == sortStrings (lb.drop hl)
+      match run Gotree.Gen.C08Glue.glue, run expectedGlue with
       | some (t, failed), some (t0, failed0) =>
-        let v := { v with tags := v.tags ++ ["cli-text"] }
+        let v := { v with tags := v.tags ++ ["cli-text"] ++ tagIf ((cliOutput expectedGlue fl r cs).isNone) "cli-text-E" }
         if failed != (outcome != "ok") then
           { v with status := .tie, detail := "model of the command: " ++ (if failed then "fails" else "succeeds") ++ ", the command: " ++ outcome }
-        else if (if failed then !text.startsWith t else text != t) then
+        else if (if failed then !multi && !text.startsWith t else !sameText text t) then
           { v with status := .tie, detail := "model of the command writes " ++ t.quote ++ ", the command wrote " ++ text.quote }
         else if t != t0 || failed != failed0 then
           { v with status := .tie, detail := "the regenerated table prints " ++ t.quote ++ ", the table of the model " ++ t0.quote }
         else v
-      | none, none => { v with tags := v.tags ++ ["cli-text-float"] }
+      | none, none => { v with tags := v.tags ++ ["cli-text-none"] }
       | _, _ => { v with status := .tie, detail := "the regenerated table is not one the model of the command can interpret" }
     | _, _, _ => bad "C08.cli text"
 
@@ -580,7 +596,7 @@ def handle (op : String) (f : List String) : Verdict :=
         tagIf (thr.startsWith "-" || thr == "0") "cpus-below-1" ++
         tagIf (workersOf (thr.toInt?.getD 1) != (thr.toInt?.getD 1).toNat) "model-cpus-clamped" }
   else match op, f with
-    | "cli", ["nocompared", _, dR, _, outcome, rowsS, stdoutE] =>
+    | "cli", "nocompared" :: _ :: dR :: _ :: outcome :: rowsS :: stdoutE :: _ =>
       -- no `-c`: the command must fail with an error and print no row (model `cliRun … none`)
       let tags := ["cli", "cli-nocompared"]
       (match T.undump dR with
@@ -591,7 +607,8 @@ def handle (op : String) (f : List String) : Verdict :=
          else match cliRun expectedGlue ⟨false, false, false, false⟩ r none, unescape stdoutE with
            | some (t, true), some text => if text.startsWith t then ⟨.pass, tags, ""⟩ else ⟨.tie, tags, "model writes nothing"⟩
            | _, _ => ⟨.tie, tags, "model of the command without -c"⟩)
-    | "cli", [mode, tipsS, dR, dCs, outcome, rowsS, stdoutE] => handleCli mode tipsS dR dCs outcome rowsS stdoutE
+    | "cli", [mode, tipsS, dR, dCs, outcome, rowsS, stdoutE] => handleCli mode tipsS dR dCs outcome rowsS stdoutE "1"
+    | "cli", [mode, tipsS, dR, dCs, outcome, rowsS, stdoutE, threads] => handleCli mode tipsS dR dCs outcome rowsS stdoutE threads
     | "cli", [mode, tipsS, dR, dCs, outcome, rowsS] =>
       -- (a case reported by the parent of a dead executor: no text)
       (match parseBool tipsS with
